@@ -977,6 +977,10 @@ def rule_tower_consts(prop, repo):
         if not ok:
             # early exits that are the defining shape specialised by an operand test (0·x = 0, −(2·0) = 0) are the same map
             ok, _why = shared.forwards(repo, b, pred, {"scale": "mul", "mul_by_nonresidue": "neg", "unitary_inverse": "neg"}.get(name))
+        if not ok and name in ("mul_by_nonresidue", "unitary_inverse", "scale"):
+            # the same map spelled differently ((−c1) + (−c1) for −2·c1): evaluated in the graded-units domain with scalar factor
+            from . import mono
+            ok = mono.evaluates_to(F, b, fq2, name)
         R.check(ok, "%s:tower:Fq2::%s" % (prop, name), "Fq2::%s does not have its defining shape: %s" % (name, show(rv, maxdepth=4)[:200]), b.file_line(), b.rec["path"],
                 sample={"fn": "Fq2::" + name, "shape": show(rv, maxdepth=3)[:120]})
     # every override of One::is_one is `*self == Self::one()` (the default's meaning)
@@ -1160,6 +1164,11 @@ def rule_tower_shapes(prop, repo):
             g0 = list(got)
             ok, _why = shared.forwards(repo, b, has_shape, "mul" if any(w[2] == "by" for w in want) else "neg")
             got[:] = g0
+        if not ok:
+            from . import mono
+            tyq = next((t_ for t_ in (T2, T4, T12) if t_ in path), None)
+            if tyq is not None:
+                ok = mono.evaluates_to(F, b, tyq, path.split("::")[-1])
         R.check(ok, "%s:shape:%s" % (prop, path), "%s has components %s; defining shape is %s" % (path, got, [(w[0], w[1]) for w in want]), b.file_line(), path,
                 sample={"fn": path.split("::")[-2] + "::" + path.split("::")[-1], "components": [str(g) for g in got]} if R.instances % 4 == 1 else None)
     for ap in repo.fp_types():
